@@ -1,6 +1,6 @@
 (* C03 - Stopping or killing a worker at any moment loses no message: the process-death clause, on the Redis client.
    Statements only; every proof is `exact <lemma>`. *)
-From Repid Require Import Base Sched RedisSrv RedisBroker RedisProofs.
+From Repid Require Import Base Sched RedisSrv RedisBroker RedisProofs GenRedisMaint GenRedisMaintProofs.
 
 (* maintenance gives a message marked as being processed back exactly when its execution timeout has elapsed since the
    (whole) second it was taken - not before *)
@@ -31,7 +31,14 @@ Theorem C03_redis_death_recovery :
   held 1 s4 = 0 /\ get_list s4 (mkLK 1 5 LNormal) = [1] /\ t5 = TMsg 1 11 100.
 Proof. exact redis_death_recovery. Qed.
 
+(* the time-out test of the model IS the comparison RedisMessageBroker.maintenance makes at /repo's current source (GenRedisMaint.v
+   is regenerated from it on every run) *)
+Theorem C03_redis_source_is_model_timed_out : forall e pcode p start_s now,
+  zassoc pcode (ptab e) = Some p -> timed_out e pcode start_s now = gen_redis_timed_out p start_s now.
+Proof. exact gen_redis_timed_out_model. Qed.
+
 Print Assumptions C03_redis_timed_out_iff.
 Print Assumptions C03_redis_maint_entry_decision.
 Print Assumptions C03_redis_recovered_message_places.
 Print Assumptions C03_redis_death_recovery.
+Print Assumptions C03_redis_source_is_model_timed_out.
